@@ -739,6 +739,13 @@ func run(args []string) error {
 	case "c17":
 		e.lockArithmetic()
 		e.encoderRule(r, *n, *tier)
+		if err := e.walGrid(r, filepath.Join(*out, "grid")); err != nil {
+			return err
+		}
+		if err := e.dbGrid(filepath.Join(*out, "grid"), *tier); err != nil {
+			return err
+		}
+		_ = os.RemoveAll(filepath.Join(*out, "grid"))
 		if *sparse {
 			if err := e.sparseDatabases(r, filepath.Join(*out, "sparse"), *tier); err != nil {
 				return err
